@@ -307,7 +307,16 @@ def gen_phase(rng, n, tier="quick"):
     for i in range(n):
         d = datetime.date.fromordinal(rng.randint(1, 3652059)) if rng.random() < 0.5 else \
             gens.rand_date(rng, wide=False)
-        if i % 2:
+        if i % 5 == 4 and d.year > 1:
+            # the "date" spelled as a datetime (naive or aware): its own wall-clock fields count
+            dt = datetime.datetime(d.year, d.month, d.day, rng.randint(0, 23), rng.randint(0, 59),
+                                   rng.randint(0, 59))
+            if rng.random() < 0.4:
+                dt = dt.replace(tzinfo=datetime.timezone(datetime.timedelta(minutes=rng.randrange(-720, 841, 15))))
+            st, v = call(moon.phase, dt)
+            yield Case("phase", "phase_dt %s" % I(wall_us(dt)), FS(v) if st == "ok" else E(v),
+                       {"datetime": dt.isoformat()})
+        elif i % 2:
             yield Case("phase", "phase %s" % I(d.toordinal()), FS(moon.phase(d)), {"date": str(d)})
         else:
             yield Case("_phase_asfloat", "phase_asfloat %s" % I(d.toordinal()),
